@@ -71,7 +71,7 @@ def enc_cases(ck, count, maxchunks=5, exhaustive_lengths=False):
             T = Ts[(i // 15) % len(Ts)] if n % 3 else r.choice(Ts)
             i += 1
             res.append(EncCase(n, cm, hm, T, rnd_key(r), rnd_seed(r), rnd_bytes(r, n), "len=%s" % lencls(n)))
-        return res + related_block_cases(ck, 45)
+        return res + related_block_cases(ck, 45) + counter_carry_cases(ck)
     i = 0
     while len(res) < count:
         n = lens[(i * 7) % len(lens)] if r.random() < 0.45 else r.randrange(0, maxchunks * CH + 40)
@@ -79,7 +79,22 @@ def enc_cases(ck, count, maxchunks=5, exhaustive_lengths=False):
         T = Ts[(i // 3) % len(Ts)]
         i += 1
         res.append(EncCase(n, cm, hm, T, rnd_key(r), rnd_seed(r), rnd_bytes(r, n), "len=%s" % lencls(n)))
-    return res + related_block_cases(ck, max(4, count // 12))
+    return res + related_block_cases(ck, max(4, count // 12)) + counter_carry_cases(ck)
+
+
+# seeds whose first IV (SHA-1 of the seed, bytes 0..15) ends in FF FF FF Ex: a CTR stream started from it carries out of its low
+# 32-bit word after 32 / 23 / 24 blocks (found once by search over 2^27 candidates; random seeds reach this with probability 2^-25)
+CARRY_SEEDS = [(b"wv-carry-seed-1829833", 32), (b"wv-carry-seed-56442943", 23), (b"wv-carry-seed-128457789", 24)]
+
+
+def counter_carry_cases(ck):
+    r = ck.rng
+    res = []
+    for j, (seed, nb) in enumerate(CARRY_SEEDS):
+        T = [1, 2, 1][j]
+        n = 16 * (nb + 6) * T + r.randrange(1, 16)        # every stream runs past the carry
+        res.append(EncCase(n, 2, j % 3, T, rnd_key(r), seed, rnd_bytes(r, n), "ctr-counter-carries-out-of-32-bits"))
+    return res
 
 
 def related_block_cases(ck, count):
